@@ -64,6 +64,7 @@ func (v *Verifier) newCtx(key string) (*FnCtx, error) {
 	c.declSeq(SStr)
 	// loop ordinals (pre-order over the whole declaration) and closure literal bindings
 	n := 0
+	nclosure := 0
 	ast.Inspect(fd, func(nd ast.Node) bool {
 		switch x := nd.(type) {
 		case *ast.BranchStmt:
@@ -74,10 +75,20 @@ func (v *Verifier) newCtx(key string) (*FnCtx, error) {
 			n++
 			c.loopOrd[nd] = n
 		case *ast.CallExpr:
+			iterating := false
 			if ci := c.calleeOf(x); ci.fn != nil {
 				if cc := v.specs.Contracts[typesFuncKey(ci.fn)]; cc != nil && cc.Iter != nil {
 					n++
 					c.loopOrd[nd] = n
+					iterating = true
+				}
+			}
+			if !iterating {
+				for _, a := range x.Args {
+					if fl, ok := a.(*ast.FuncLit); ok {
+						nclosure++
+						c.loopOrd[fl] = 1000 + nclosure
+					}
 				}
 			}
 		case *ast.AssignStmt:
